@@ -697,6 +697,17 @@ func Fuzz[C any](f *testing.F, prop string, s Sub[C]) {
 	f.Add([]byte{})
 	f.Add([]byte("\x01\x02\x03\x04\x05\x06\x07\x08\x09\x0a\x0b\x0c\x0d\x0e\x0f\x10\x11\x12\x13\x14\x15\x16\x17\x18"))
 	f.Add(bytes.Repeat([]byte{0xff, 0x00, 0x7f, 0x80}, 64))
+	// a starting population of pseudo-random streams (fixed generator: the corpus is the same on every run), long
+	// enough to decode into complete cases of every size the generator can draw
+	lcg := uint64(0x9e3779b97f4a7c15)
+	for i := 0; i < 24; i++ {
+		b := make([]byte, 256<<(i%6))
+		for j := range b {
+			lcg = lcg*6364136223846793005 + 1442695040888963407
+			b[j] = byte(lcg >> 56)
+		}
+		f.Add(b)
+	}
 	f.Fuzz(rapid.MakeFuzz(func(rt *rapid.T) {
 		c := s.Gen(rt)
 		st := newStats(prop, s.Name, "")
